@@ -620,6 +620,7 @@ class C12(flatcheck.FlatCheck):
         ('nested-model-small', (8, 110), (12, 500)),
         ('nested-model-parallel', (8, 110), (12, 500)),
         ('nested-model-async', (8, 110), (8, 500)),
+        ('nested-model-reentrant', (8, 110), (8, 500)),
         ('nested-twin', (16, 14), (16, 110)),
         ('nested-twin-parallel', (8, 14), (8, 110)),
     )
